@@ -149,6 +149,15 @@ void prop_gen(Ctx &c) {
 		std::string s = std::string("FREQ=") + F[f] + ";INTERVAL=" + std::to_string(std::get<1>(t)) + ";" + P[f] + "=" + std::to_string(std::get<2>(t) % MOD[f] + (f >= 3));
 		if (std::get<3>(t) < 30 && f <= 1) s += std::string(";") + (f == 0 ? "BYMINUTE" : "BYHOUR") + "=" + std::to_string(std::get<4>(t) % (f == 0 ? 60 : 24));
 		if (std::get<5>(t) < 20) s += ";BYMONTH=" + std::to_string(std::get<6>(t));
+		// MONTHLY/YEARLY: a whole residue class of months, and a SHIFT (the fillers move their starting month / year for shifted rules, which must not defeat the congruence reasoning)
+		if (f >= 5 && std::get<3>(t) >= 40) {
+			int iv = std::get<1>(t), g = 12; for (int a = iv % 12, b = 12; a; ) { int r = b % a; b = a; a = r; g = b; } if (iv % 12 == 0) g = 12;
+			std::string ml; for (int m = 1 + std::get<2>(t) % (g > 0 ? g : 1); m <= 12; m += (g > 0 ? g : 1)) { if (!ml.empty()) ml += ","; ml += std::to_string(m); }
+			s = std::string("FREQ=") + F[f] + ";INTERVAL=" + std::to_string(iv) + ";BYMONTH=" + ml;
+			if (std::get<5>(t) < 40) s += ";BYMONTHDAY=" + std::to_string(1 + std::get<4>(t) % 28);
+			static const char *SH[] = {"1", "-1", "1B", "-1B", "0B", "-70", "30", "45", "-5B", "200", "2B", "-31"};
+			if (std::get<5>(t) % 10 < 7) s += std::string(";SHIFT=") + SH[std::get<4>(t) % 12];
+		}
 		return s; });
 	rc::check("C09", [&]() {
 		if (c.shrink_exhausted()) return;
